@@ -286,12 +286,17 @@ class Source:
         return self.text[it.hstart:it.end]
 
 
+def _strip_paths(name):
+    return re.sub(r'(?<![A-Za-z0-9_])(?:::)?(?:[A-Za-z_][A-Za-z0-9_]*::)+', '', name)
+
+
 def _seg_match(it, seg):
     parts = seg.split(' ', 1)
     kw = parts[0]
     rest = parts[1] if len(parts) > 1 else ''
     if kw == 'impl' or kw.startswith('impl<'):
-        return it.kind == 'impl' and it.name == norm(seg)
+        # module qualifiers of the trait / type path are not significant (`impl crate::attributes::Tr for T` == `impl Tr for T`)
+        return it.kind == 'impl' and (it.name == norm(seg) or _strip_paths(it.name) == _strip_paths(norm(seg)))
     if kw == 'macro_rules!':
         return it.kind == kw and it.name == rest
     return it.kind == kw and it.name == rest
